@@ -22,3 +22,21 @@ Proof.
   - left. exact (reader_truncated_errors_lemma _ _ _ _ _ _ _ n H Hc).
 Qed.
 Print Assumptions units_query_prefix.
+
+(* tie (generated): the record switches of gds_info and read_rawcells as they stand today react to exactly the record
+   types their models react to *)
+Theorem gds_info_switch_as_modelled :
+  gds_info_case_groups = [[4]; [6]; [3]; [8; 45]; [9]; [10; 11]; [12]; [13]; [14; 46; 22]]
+  /\ forall t, info_noop t <-> ~ In t (concat gds_info_case_groups).
+Proof.
+  split; [reflexivity|]. intros t. unfold info_noop. cbn [gds_info_case_groups concat app In]. intuition congruence.
+Qed.
+Print Assumptions gds_info_switch_as_modelled.
+
+Theorem read_rawcells_switch_as_modelled :
+  read_rawcells_case_groups = [[4]; [5]; [6]; [7]; [18]]
+  /\ forall t, quiet t <-> ~ In t (concat read_rawcells_case_groups).
+Proof.
+  split; [reflexivity|]. intros t. unfold quiet. cbn [read_rawcells_case_groups concat app In]. intuition congruence.
+Qed.
+Print Assumptions read_rawcells_switch_as_modelled.
